@@ -217,16 +217,19 @@ def specCall (g : AGraph) (objs : List SObj) (origin oid fn : String) : List Ev 
   match objs.find? (·.oid == oid) with
   | none => ([Ev.call origin oid fn, .ret "!noobj"], objs)
   | some ob =>
-    let swept := origin == "rco"
-    match resolve g.toS ob.prog fn with
-    | none => ([Ev.call origin oid fn, .ret (if swept then "swept" else "!no"), .vars oid ob.vars], objs)
+    -- the heart beat is not a call by a name the caller chooses: the driver runs the object's `heart_beat`, if it has one
+    let fn' := if origin == "hb" then "heart_beat" else fn
+    let swept := origin == "rco" || origin == "hb"
+    let sweptTxt := if origin == "hb" then "ticked" else "swept"
+    match resolve g.toS ob.prog fn' with
+    | none => ([Ev.call origin oid fn, .ret (if swept then sweptTxt else "!no"), .vars oid ob.vars], objs)
     | some path =>
-      if !(allowed (callerOf origin) (effMods g fn ob.prog path)) then
+      if !(allowed (callerOf origin) (effMods g fn' ob.prog path)) then
         ([Ev.call origin oid fn, .ret "!no", .vars oid ob.vars], objs)
       else
-        let r := runFn g ob.prog 64 path fn ob.vars []
+        let r := runFn g ob.prog 64 path fn' ob.vars []
         let defProg := ((g[endOf g ob.prog path]?).map (·.name)).getD "?"
-        let retv := if swept then "swept" else if r.ok then s!"\"{defProg}:{fn}\"" else "!err"
+        let retv := if swept then sweptTxt else if r.ok then s!"\"{defProg}:{fn'}\"" else "!err"
         ([Ev.call origin oid fn] ++ r.evs.reverse ++ [.ret retv, .vars oid r.vars],
          objs.map (fun o => if o.oid == oid then { o with vars := r.vars } else o))
 
